@@ -59,6 +59,8 @@ def argclass(step, prev_mdl, prev_exp):
                 parts.append("nocopy")
             if typ != "raw":
                 parts.append("typed")
+            if used == 0:
+                parts.append("empty")
         n = len(arg.get("data") or []) if "data" in arg else arg.get("n", arg.get("len", 0))
         pos = arg.get("pos", arg.get("off"))
         if a == "settyped" and pos is not None:
@@ -89,7 +91,8 @@ def argclass(step, prev_mdl, prev_exp):
 def collapse(a, why, cls):
     """One signature per defect: keep only the conditions that discriminate it (computed from the failing call)."""
     parts = cls.split(",")
-    if a == "reserve" and why in ("vals", "lens") and "nocopy" in parts and "retype" not in parts and "null" not in parts:
+    if (a == "reserve" and why in ("vals", "lens", "rejected") and "nocopy" in parts and "retype" not in parts
+            and "null" not in parts and "empty" not in parts and ("shared" in parts or "imm" in parts)):
         return "reserve:content:nocopy,same-type"
     return "%s:%s:%s" % (a, why, cls)
 
@@ -101,7 +104,7 @@ def signature(mm, beh):
     return collapse(st["a"], why, argclass(st, prev and prev.get("mdl"), prev and prev.get("exp")))
 
 
-def compare(behs, recs, api):
+def compare(behs, recs, api, matchfn=None, cap_ops=CAP_OPS):
     """Replay comparison.  Returns (mismatches, stats).  A step marked `either` that differs is only a
     mismatch when no sibling behaviour with the other permitted answer matched the same call."""
     by = vlib.group_records(recs)
@@ -119,7 +122,7 @@ def compare(behs, recs, api):
                 out.append({"b": b, "i": i, "why": rec["a"], "rec": rec})
                 break
             exp = st["exp"]
-            why = match(exp, rec.get("obs") or {})
+            why = (matchfn or match)(exp, rec.get("obs") or {})
             stats["steps_compared"] += 1
             key = None
             if exp.get("either"):
@@ -127,14 +130,14 @@ def compare(behs, recs, api):
             if why:
                 if key is not None:
                     either_miss.setdefault(key, {"b": b, "i": i, "why": why, "rec": rec})
-                elif capdiv and st["a"] in CAP_OPS and why.startswith("ret"):
+                elif capdiv and st["a"] in cap_ops and why.startswith("ret"):
                     stats["capacity_divergence_forgiven"] += 1
                 else:
                     out.append({"b": b, "i": i, "why": why, "rec": rec})
                 break
             if key is not None:
                 either_hit.add(key)
-            if api == "c" and (rec.get("dbg") or {}).get("sizes") != (st.get("mdl") or {}).get("sizes"):
+            if api in ("c", "rec", "arr") and (rec.get("dbg") or {}).get("sizes") != (st.get("mdl") or {}).get("sizes"):
                 capdiv = True
     for key, mm in either_miss.items():
         if key in either_hit:
@@ -295,10 +298,25 @@ def seq_key(beh):
     return json.dumps([(s["a"], s.get("arg")) for s in beh], sort_keys=True)
 
 
+def build_seam():
+    """drv/alloc_seam.c (the repository's buffer_alloc.c) compiled as C for the C++ drivers."""
+    import os
+    import subprocess
+    odir = vlib.ensure(os.path.join(vlib.WORK, "drv-" + vlib.repo_key()))
+    obj = os.path.join(odir, "alloc_seam.o")
+    cmd = ["clang"] + vlib.SAN_FLAGS.split() + ["-c", "-I" + vlib.DRV] + ["-I" + os.path.join(vlib.REPO, i) for i in vlib.INCLUDES]
+    cmd += [os.path.join(vlib.DRV, "alloc_seam.c"), "-o", obj + ".tmp%d" % os.getpid()]
+    r = subprocess.run(cmd, stdout=subprocess.PIPE, stderr=subprocess.STDOUT, text=True)
+    if r.returncode:
+        raise vlib.MachineryError("seam build failed:\n" + r.stdout[-3000:])
+    os.replace(obj + ".tmp%d" % os.getpid(), obj)
+    return obj
+
+
 def build(api):
     if api == "c":
         return vlib.build_driver("cowarray", ["cowarray.c"])
-    return vlib.build_driver("cowarray_cxx", ["cowarray_cxx.cpp"], libs=("mptcore", "mpt++"), cxx=True)
+    return vlib.build_driver("cowarray_cxx", ["cowarray_cxx.cpp", build_seam()], libs=("mptcore", "mpt++"), cxx=True)
 
 
 def run_replay(ck, api, gencfg, module):
@@ -312,7 +330,7 @@ def run_replay(ck, api, gencfg, module):
     mms, stats = compare(behs, recs, api)
     for mm in mms:
         beh = behs[mm["b"]]
-        ck.violation(api + ":" + signature(mm, beh),
+        ck.violation(("" if api == "c" else api + ":") + signature(mm, beh),
                      {"binding": "A(replay,%s)" % api, "api": api, "behaviour": beh[:mm["i"] + 1], "step": mm["i"],
                       "why": mm["why"], "record": mm["rec"]})
     by = vlib.group_records(recs)
@@ -342,20 +360,9 @@ def run(tier):
     hist = gen_histories(ck, cfg["nhist"], cfg["steps"])
     recs2, _ = vlib.run_driver(exe, vlib.to_script(hist))
     events = vlib.merge_trace(hist, recs2)
-    ok, matched, tres = vlib.validate_trace("Trace_CowArray", events, tag="Trace_CowArray", xss="1g")
-    ck.cov["transitions"] += tres.generated
-    if not ok:
-        ok2, matched2, _ = vlib.validate_trace("Trace_CowArray", events, tag="Trace_CowArray", xss="1g")
-        if not ok2 and matched2 == matched:
-            ev = events[matched] if matched < len(events) else None
-            prev = events[matched - 1] if matched else None
-            sig = "trace:short"
-            if ev:
-                why = ev["a"] if ev["a"] in ("Crash", "Hang", "Missing") else "rejected"
-                st = hist[ev["b"]][ev["i"]]
-                sig = "trace:" + collapse(st["a"], why.lower(), trace_class(st, prev))
-            ck.violation(sig, {"binding": "B(trace validation)", "matched_prefix": matched, "rejected_event": ev,
-                               "previous_event": prev, "behaviour": hist[ev["b"]][:ev["i"] + 1] if ev else None})
+    ok, matched, ngen, cuts = validate_traces(ck, hist, events)
+    ck.cov["transitions"] += ngen
+    ck.notes["trace_behaviours_cut_at_known_finding"] = cuts
     by2 = vlib.group_records(recs2)
     for b, beh in enumerate(hist):
         if nontrivial(by2.get(b, [])):
@@ -380,6 +387,50 @@ def run(tier):
                       "no access outside a buffer is observed (ASan) on every executed call, not proved",
                       "the exhaustive model is bounded (see MC cfg); beyond it coverage is by the seeded histories"]
     return ck.finish()
+
+
+def event_sig(hist, events, k):
+    ev = events[k]
+    prev = events[k - 1] if k and events[k - 1]["b"] == ev["b"] else None
+    why = ev["a"] if ev["a"] in ("Crash", "Hang", "Missing") else "rejected"
+    st = hist[ev["b"]][ev["i"]]
+    return collapse(st["a"], why.lower(), trace_class(st, prev)), prev
+
+
+def validate_traces(ck, hist, events, module="Trace_CowArray", cfg=None, sigfn=None, tag=None, extra=None):
+    """TLC validates the recorded events.  An event rejected with the signature of an open known finding cuts its
+    behaviour there (the real state has diverged); once TLC has confirmed a finding, other behaviours are cut at their
+    first call of the same class, and validation is repeated on the rest."""
+    total_gen, cuts, confirmed = 0, 0, set()
+    for _ in range(12):
+        ok, matched, tres = vlib.validate_trace(module, events, cfg=cfg, tag=tag or module, xss="1g")
+        total_gen += tres.generated
+        if ok:
+            return True, matched, total_gen, cuts
+        ok2, matched2, _ = vlib.validate_trace(module, events, cfg=cfg, tag=tag or module, xss="1g")
+        if ok2 or matched2 != matched:
+            continue     # not reproducible: validate again
+        if matched >= len(events):
+            ck.violation("trace:short", {"binding": "B(trace validation)", "matched_prefix": matched})
+            return False, matched, total_gen, cuts
+        ev = events[matched]
+        sig, prev = (sigfn or event_sig)(hist, events, matched)
+        detail = {"binding": "B(trace validation)", "matched_prefix": matched, "rejected_event": ev,
+                  "previous_event": prev, "behaviour": hist[ev["b"]][:ev["i"] + 1]}
+        detail.update(extra or {})
+        if ck.violation(sig, detail):
+            return False, matched, total_gen, cuts
+        confirmed.add(sig)
+        # cut this behaviour at the rejected event, others at their first event of a confirmed class
+        drop = {ev["b"]: ev["i"]}
+        for k, e in enumerate(events):
+            if e["b"] in drop or "obs" not in e:
+                continue
+            if (sigfn or event_sig)(hist, events, k)[0] in confirmed:
+                drop[e["b"]] = e["i"]
+        cuts += len(drop)
+        events = [e for e in events if e["b"] not in drop or e["i"] < drop[e["b"]]]
+    raise vlib.MachineryError("trace validation did not settle after 12 rounds")
 
 
 def trace_class(st, prev):
